@@ -706,6 +706,20 @@ def eval_moves(ctx, c, outs):
     d = cmp_obs(exp_back, gb, f'{op} drop={drop} then back', check_names=(op == 'shift'))
     if d:
         fails.append(Failure('oracle', d, c))
+    if op not in ('set_index', 'set_index_hierarchy') and len(sel) >= 2:
+        # the depths named in another order: every moved column still carries the label of ITS depth
+        dsr = ds[::-1]
+        back2 = run(lambda: g.relabel_shift_out(dsr))
+        ctx.count('moves_shift_out_reordered')
+        if back2[0] == 'err':
+            fails.append(Failure('oracle', f'{op} then relabel_shift_out({dsr}) raised {type(back2[2]).__name__}: {back2[2]}', c))
+        else:
+            exp2 = {'names': o['names'], 'index': o['index'],
+                    'columns': [[ct(untok(t))] for t in c['cols']][::-1] + [o['columns'][i] for i in keep],
+                    'rows': [[r[j] for j in sel][::-1] + [r[i] for i in keep] for r in o['rows']]}
+            d2 = cmp_obs(exp2, frame_obs(back2[1]), f'{op} then relabel_shift_out({dsr})', check_names=(op == 'shift'))
+            if d2:
+                fails.append(Failure('oracle', d2, c))
     return fails
 
 
